@@ -338,6 +338,11 @@ func (e *Env) ident(name string) Term {
 	if name == "nil" {
 		return Term{S: "0", Sort: "Int"}
 	}
+	if name == "$frame" {
+		vc.declare("frame_self", "Int")
+		vc.P.prelude.useFile(vc, "frames")
+		return Term{S: "frame_self", Sort: "Int"}
+	}
 	if t, ok := e.freeVar(name); ok {
 		return t
 	}
@@ -420,7 +425,7 @@ func (vc *VC) globalRef(o *types.Var) string {
 }
 
 func (vc *VC) readGlobal(st *State, o *types.Var) Term {
-	if _, ok := isStruct(o.Type()); ok {
+	if subObject(o.Type()) {
 		// struct-typed globals are objects: yield the value
 		return vc.loadStruct(st, vc.globalRef(o), o.Type())
 	}
@@ -500,7 +505,12 @@ func (e *Env) fieldStep(cur Term, fi int) Term {
 			e.fail("field of pointer to non-struct")
 		}
 		ft := s.Field(fi).Type()
-		if _, isS := isStruct(ft); isS {
+		if valueStruct(st) && (cur.Loc == nil || cur.Loc.Kind != -1) {
+			name, sortName := vc.cellVar(st)
+			whole := sx("select", vc.get(e.st, name, sortName), cur.S)
+			return Term{S: sx(fmt.Sprintf("%s_%d", vc.ss().sortOf(st), fi), whole), Sort: vc.ss().sortOf(ft), T: ft}
+		}
+		if subObject(ft) {
 			// stay in "pointer" form for nested struct objects
 			return Term{S: sx(vc.subFun(st, fi), cur.S), Sort: "Int", T: types.NewPointer(ft), Loc: &Loc{Kind: -1}}
 		}
@@ -573,6 +583,20 @@ func splitSortArgs(s string) []string {
 func (e *Env) call(x *ECall) Term {
 	vc := e.vc
 	if x.Recv != nil {
+		// Iface.Method(recv, args...) for a pure_const interface method
+		if id, ok := x.Recv.(*EIdent); ok {
+			if sp, ok := vc.P.spec.Funcs[id.Name+"."+x.Fun]; ok && sp.PureConst {
+				var as []Term
+				for _, a := range x.Args {
+					as = append(as, e.value(e.tr(a)))
+				}
+				rt := vc.P.pureConstResult(sp)
+				if rt == nil {
+					e.fail("cannot determine the result type of %s", sp.Name)
+				}
+				return vc.pureConstApp(sp, as, rt)
+			}
+		}
 		e.fail("method calls are not supported in specifications: %s", x.Fun)
 	}
 	switch x.Fun {
@@ -649,7 +673,51 @@ func (e *Env) call(x *ECall) Term {
 		return Term{S: sx("is_old", a.S), Sort: "Bool"}
 	case "calls":
 		a := e.tr(x.Args[0])
-		return Term{S: sx("select", vc.get(e.st, "G_$calls", "(Array Int Int)"), a.S), Sort: "Int"}
+		if a.T == nil {
+			e.fail("calls() needs a typed function value")
+		}
+		return Term{S: sx("select", vc.get(e.st, callsVar(a.T), "(Array Int Int)"), a.S), Sort: "Int"}
+	case "addr":
+		// addr(g): the object reference of a struct-typed package variable
+		id, ok := x.Args[0].(*EIdent)
+		if !ok {
+			e.fail("addr() needs a package variable")
+		}
+		o, _ := vc.P.logPkg.Types.Scope().Lookup(id.Name).(*types.Var)
+		if o == nil {
+			e.fail("addr(): unknown variable %s", id.Name)
+		}
+		return Term{S: vc.globalRef(o), Sort: "Int", T: types.NewPointer(o.Type())}
+	case "typetag":
+		var tt types.Type
+		if ta, ok := x.Args[0].(*ETypeArg); ok {
+			tt, _ = e.resolveType(ta.Type)
+		} else if id, ok := x.Args[0].(*EIdent); ok {
+			tt, _ = e.resolveType(id.Name)
+		}
+		if tt == nil {
+			e.fail("typetag needs a type")
+		}
+		return Term{S: fmt.Sprint(vc.ss().typeTag(tt)), Sort: "Int"}
+	case "upd":
+		a := e.value(e.tr(x.Args[0]))
+		k := e.value(e.tr(x.Args[1]))
+		v := e.value(e.tr(x.Args[2]))
+		return Term{S: sx("store", a.S, k.S, v.S), Sort: a.Sort, T: a.T}
+	case "ifval":
+		a := e.value(e.tr(x.Args[0]))
+		if a.Sort == "Iface" {
+			return Term{S: sx("if_val", a.S), Sort: "Int"}
+		}
+		return Term{S: a.S, Sort: "Int"}
+	case "iftag":
+		a := e.value(e.tr(x.Args[0]))
+		return Term{S: sx("if_tag", a.S), Sort: "Int"}
+	case "up":
+		a := e.tr(x.Args[0])
+		b := e.tr(x.Args[1])
+		vc.P.prelude.useFile(vc, "frames")
+		return Term{S: sx("up", a.S, b.S), Sort: "Int"}
 	case "ret":
 		// ret(f, n): the n-th result of function value f
 		a := e.tr(x.Args[0])
@@ -668,7 +736,7 @@ func (e *Env) call(x *ECall) Term {
 		}
 		pt := sig.Params().At(0).Type()
 		sort := vc.ss().sortOf(pt)
-		return Term{S: sx("select", vc.get(e.st, "G_$arg0_"+mangle(sort), "(Array Int "+sort+")"), a.S), Sort: sort, T: pt}
+		return Term{S: sx("select", vc.get(e.st, arg0Var(a.T), "(Array Int "+sort+")"), a.S), Sort: sort, T: pt}
 	case "val":
 		return e.value(e.tr(x.Args[0]))
 	case "max", "min":
@@ -830,6 +898,63 @@ type recInfo struct {
 	svars   []string
 	ssorts  []string
 	pending bool
+}
+
+// callsVar names the ghost call counter of function values of type t
+// (one array per signature type, so values of different types never alias).
+func callsVar(t types.Type) string {
+	return "G_$calls_" + mangle(shortTypeName(types.Unalias(t).Underlying()))
+}
+
+func arg0Var(t types.Type) string {
+	return "G_$arg0_" + mangle(shortTypeName(types.Unalias(t).Underlying()))
+}
+
+// pureConstResult finds the Go result type of a pure_const contract.
+func (P *Program) pureConstResult(sp *FuncSpec) types.Type {
+	if sp.IsIface {
+		i := strings.LastIndex(sp.Name, ".")
+		tn, mn := sp.Name[:i], sp.Name[i+1:]
+		var o types.Object
+		if j := strings.Index(tn, "."); j >= 0 {
+			if p := P.findPkgByName(tn[:j], nil); p != nil {
+				o = p.Scope().Lookup(tn[j+1:])
+			}
+		} else {
+			o = P.logPkg.Types.Scope().Lookup(tn)
+		}
+		if o == nil {
+			return nil
+		}
+		m, _, _ := types.LookupFieldOrMethod(o.Type(), true, P.logPkg.Types, mn)
+		if f, ok := m.(*types.Func); ok {
+			sig := f.Type().(*types.Signature)
+			if sig.Results().Len() == 1 {
+				return sig.Results().At(0).Type()
+			}
+		}
+		return nil
+	}
+	if fn := P.funcs[sp.Name]; fn != nil && fn.Signature.Results().Len() == 1 {
+		return fn.Signature.Results().At(0).Type()
+	}
+	return nil
+}
+
+// pureConstApp: the result of a pure_const function is an uninterpreted function of its arguments.
+func (vc *VC) pureConstApp(sp *FuncSpec, args []Term, rt types.Type) Term {
+	n := "pc_" + mangle(sp.Name)
+	var sorts, as []string
+	for _, a := range args {
+		sorts = append(sorts, a.Sort)
+		as = append(as, a.S)
+	}
+	rs := vc.ss().sortOf(rt)
+	vc.declareFun(n, sorts, rs)
+	if len(as) == 0 {
+		return Term{S: n, Sort: rs, T: rt}
+	}
+	return Term{S: sx(n, as...), Sort: rs, T: rt}
 }
 
 func (vc *VC) retFun(rt types.Type) string {
